@@ -254,6 +254,13 @@ def run(args):
             path = os.path.join("replays", f"{prop}-{safe(key)}-search.json")
             json.dump(rec, open(os.path.join(ROOT, path), "w"), indent=1, default=str)
             violations.append((path, False, [key]))
+    for ob in failed_by_fn.pop("ground", []):
+        rec = {"property": prop, "function": "ground", "failed_obligations": [ob["name"]],
+               "how_found": "ground obligation over the literal source text (a finite fact, evaluated exhaustively)",
+               "witness": ob["results"][0].get("detail")}
+        path = os.path.join("replays", f"{prop}-{safe(ob['name'])}.json")
+        json.dump(rec, open(os.path.join(ROOT, path), "w"), indent=1, default=str)
+        violations.append((path, False, [ob["name"]]))
     for fnkey, obs in failed_by_fn.items():
         c = obs[0]["contract"]
         found = None
